@@ -100,6 +100,8 @@ impl Cfg {
         let mut root = CmdSpec::new("prog");
         root.args.push(ArgSpec::flag("p0", Some('p'), Some("p0")));
         root.args.push(ArgSpec::flag("q0", Some('q'), Some("q0")));
+        // a root flag whose short is a multi-byte character (clusters count flags, not bytes)
+        root.args.push(ArgSpec::flag("u0", Some('é'), Some("u0")));
         let mut sa = CmdSpec::new("sa");
         sa.args.push(ArgSpec::flag("p1", Some('p'), Some("p1")));
         sa.args.push(ArgSpec::flag("q1", Some('q'), Some("q1")));
@@ -352,6 +354,10 @@ fn lines(c: &Cfg, max_chain: usize, thorough: bool) -> Vec<Line> {
         out.push(mk(&["-A", "-pBq"], &["sa", "sb"], vec![(false, false), (true, false), (false, true)], "second-level group with leading flag"));
         out.push(mk(&["-qApBq"], &["sa", "sb"], vec![(false, true), (true, false), (false, true)], "one group through two levels"));
         out.push(mk(&["-pAq", "-p"], &["sa"], vec![(true, false), (true, true)], "group then a later group"));
+        out.push(mk(&["-éA"], &["sa"], vec![(false, false), (false, false)], "multi-byte flag then subcommand flag"));
+        out.push(mk(&["-éAq"], &["sa"], vec![(false, false), (false, true)], "multi-byte flag, subcommand flag, sub-level flag"));
+        out.push(mk(&["-éApq"], &["sa"], vec![(false, false), (true, true)], "multi-byte flag, subcommand flag, two sub-level flags"));
+        out.push(mk(&["-péApBq"], &["sa", "sb"], vec![(true, false), (true, false), (false, true)], "multi-byte flag in a group through two levels"));
     }
     // sibling dispatch
     for (tok, _) in c.spellings(c.sibling(), 'X', "sx-flag") {
